@@ -109,6 +109,8 @@ type FlushRec struct {
 }
 
 type ReqSpec struct {
+	// UpgradeConn: value of the Connection header of an upgrade request (default "Upgrade"; browsers send "keep-alive, Upgrade")
+	UpgradeConn string
 	// SlowClient: the client takes the response slowly: every Write of the response is a scheduling point (between the
 	// handler producing the bytes and the connection taking them)
 	SlowClient bool
@@ -579,7 +581,11 @@ func (w *World) buildRequest(spec ReqSpec) (*http.Request, error) {
 		fmt.Fprintf(&raw, "Cookie: %s\r\n", spec.Cookie)
 	}
 	if spec.Upgrade {
-		raw.WriteString("Connection: Upgrade\r\nUpgrade: websocket\r\n")
+		conn := spec.UpgradeConn
+		if conn == "" {
+			conn = "Upgrade"
+		}
+		raw.WriteString("Connection: " + conn + "\r\nUpgrade: websocket\r\n")
 	}
 	var body io.ReadCloser
 	if len(spec.BodyChunks) > 0 {
